@@ -495,14 +495,20 @@ def _metric_dicts(run: Run, prog: Program, fn: FuncInfo, node: Any, sites: list[
             return True
         if isinstance(it, ast.Call) and isinstance(it.func, ast.Attribute) and it.func.attr in ("items", "keys") and not it.args:
             it = it.func.value
-        if isinstance(it, ast.Name) and depth > 0:
-            ds = reaching_defs(cfg, at, it.id)
-            v = _assigned_value(cfg.nodes[ds[0]].ast) if len(ds) == 1 else None
+        if depth > 0:
+            v, at2 = resolve(it, at)
             if isinstance(v, (ast.DictComp, ast.ListComp, ast.SetComp)) and len(v.generators) == 1:
-                return over_requested(v.generators[0].iter, ds[0], depth - 1)
-            if isinstance(v, ast.Attribute):
-                return over_requested(v, ds[0], depth - 1)
+                return over_requested(v.generators[0].iter, at2, depth - 1)
+            if isinstance(v, ast.Attribute) and v is not it:
+                return over_requested(v, at2, depth - 1)
         return False
+
+    def resolve(e: ast.AST, at: int) -> tuple[ast.AST | None, int]:
+        """The expression a local name stands for at node `at` (its single reaching definition)."""
+        if isinstance(e, ast.Name):
+            ds = reaching_defs(cfg, at, e.id)
+            return (_assigned_value(cfg.nodes[ds[0]].ast), ds[0]) if len(ds) == 1 else (None, at)
+        return e, at
 
     def comp_filters(dc: ast.DictComp) -> bool:
         return any(nan_test(i, dc.value) == "true" for g in dc.generators for i in g.ifs)
@@ -522,10 +528,9 @@ def _metric_dicts(run: Run, prog: Program, fn: FuncInfo, node: Any, sites: list[
             return True
         # {k: v for k, v in raw.items() …} with raw = {k: extract(k) for k in self._metrics}
         src = g.iter.func.value if isinstance(g.iter, ast.Call) and isinstance(g.iter.func, ast.Attribute) else None
-        if isinstance(src, ast.Name) and isinstance(g.target, ast.Tuple) and len(g.target.elts) == 2 \
+        if src is not None and isinstance(g.target, ast.Tuple) and len(g.target.elts) == 2 \
                 and u(g.target.elts[0]) == u(dc.key) and u(g.target.elts[1]) == u(dc.value):
-            ds = reaching_defs(cfg, at, src.id)
-            v = _assigned_value(cfg.nodes[ds[0]].ast) if len(ds) == 1 else None
+            v, _at = resolve(src, at)
             return isinstance(v, ast.DictComp) and extracted(v.value, v.key)
         return False
 
